@@ -8,7 +8,7 @@ from sa import ir, cdb, own, common
 prog = ir.Program(None, cdb.HOST)
 acq = own.discover_acquirers(prog)
 rel = set(x for v in acq.values() for x in v) | {"free"}
-ret, ct, dt, pm = {}, {}, {}, {}
+ret, ct, dt, pm, fp = {}, {}, {}, {}, {}
 seen = set()
 for f in prog.all_funcs(own_only=False) if "own_only" in ir.Program.all_funcs.__code__.co_varnames else prog.all_funcs():
     k = (f.file, f.name)
@@ -20,6 +20,9 @@ for f in prog.all_funcs(own_only=False) if "own_only" in ir.Program.all_funcs.__
         ret.setdefault(f.file, {})[f.name] = rc
     if f.params:
         pm.setdefault(f.file, {})[f.name] = {"all": [p["name"] for p in f.params], "used": common.used_params(f)}
+    sp = common.spurious_failures(f)
+    if sp is not None and not sp:
+        fp.setdefault(f.file, []).append(f.name)
     ci = common.ctor_info(f)
     if ci is not None:
         ct.setdefault(f.file, {})[f.name] = {"record": ci[1], "stored": ci[2]}
@@ -31,6 +34,6 @@ for f in prog.all_funcs(own_only=False) if "own_only" in ir.Program.all_funcs.__
         if di is not None and di[1]:
             dt.setdefault(f.file, {})[f.name] = di[1]
 V = os.path.dirname(os.path.dirname(os.path.abspath(__file__)))
-for name, d in (("retvals.json", ret), ("ctors.json", ct), ("dtors.json", dt), ("params.json", pm)):
+for name, d in (("retvals.json", ret), ("ctors.json", ct), ("dtors.json", dt), ("params.json", pm), ("failpaths.json", {k: sorted(v) for k, v in fp.items()})):
     json.dump(d, open(os.path.join(V, "sa", name), "w"), indent=1, sort_keys=True)
     print(name, sum(len(v) for v in d.values()))
